@@ -14,14 +14,15 @@ from .. import boc_strict as S
 SPEC = dict(
     manifest=dict(
         category='proof',
-        text='Lean proves, for EVERY list of cell records with strictly-forward in-range references (hence every cell DAG in any valid order), '
-             'every record count and payload length and each of the 6 valid option sets, that the bytes produced by the model of Cell.to_boc are accepted by the '
-             'byte-level layer of an independent strict reader transcribed from boc.tlb and decode to the same records and root: size/offset widths sufficient, '
-             'references strictly forward, index = cumulative end offsets (doubled with cache bits), CRC-32C over the whole prefix, no trailing bytes '
-             '(c04_conforms_flat and the clause lemmas widths_sufficient / refs_forward / each_once / index_cumulative / crc_covers_prefix). '
-             'The semantic layer of the reader (level bits of d1 = computed level mask, no duplicate cell by representation hash, rebuilt trees) and the validity of the order '
-             'computed by Cell.order are stated in Properties/C04.lean; see design/C04.md for which of them are proved and which are only checked by the oracle. '
-             'Every run additionally executes the Lean strict reader AND an independent Python strict reader on the bytes the library really emits for generated DAGs x 6 option sets.',
+        text='Lean proves for ALL inputs: (1) c04_conforms_flat - for every list of well-formed cell records with strictly forward references (any DAG in any valid order), every count < 2^32 / '
+             'payload < 2^63 bytes and each of the 6 valid option sets, the model of Cell.to_boc succeeds and the byte-level layer of an independent strict reader transcribed from boc.tlb '
+             '(header, widths, index, CRC, record framing, completion tags, forward references, no trailing bytes) accepts the bytes and recovers exactly the records and root; '
+             '(2) c04_conforms_partial - the same end to end from a tree of cells through the models of Cell.__init__, Cell.order, Cell.serialize and to_boc (<= 4 refs per cell, exotic cells carry '
+             'their type byte, local no-collision hypothesis on the hashes at hand); (3) order_valid / order_total - the model of Cell.order terminates and yields root first, every distinct sub-cell '
+             'exactly once, references strictly forward; (4) the clause lemmas widths_sufficient(_emit), refs_forward, each_once(_records), index_cumulative (doubled with cache bits), crc_covers_prefix, completion_tag. '
+             'NOT proved (checked on every run by the oracle only): the semantic layer of the strict reader on trees - level bits of d1 = computed level mask, no duplicate cell by representation hash, '
+             'rebuilt DAG identical - i.e. the full strictParse(to_boc t) = [t]. Every run executes the Lean strict reader (incl. semantic layer) AND an independent Python strict reader '
+             'on the bytes the library really emits for generated DAGs x 6 option sets, and compares the decoded DAG with the one the library holds.',
         level_note='Trusted: Lean kernel (propext, Classical.choice, Quot.sound); Spec/Boc.lean as the transcription of boc.tlb + reference-node checks; Model/BocEmit.lean as a hand '
                    'transcription of Cell.order/serialize/to_boc tied to the code only by sampled byte-for-byte correspondence (all generated DAGs x 6 option sets, incl. 255/256/257 cells, '
                    'payload 127..65536 bytes, depth-1023 chains, exotic cells; thorough: 65535/65536/70000 cells); SHA-256 is a parameter in the theorems; the Python harness.',
